@@ -323,6 +323,24 @@ def run(ck):
     always = [x for x in mf if x[0].startswith("face_")] + [x for x in mf if x[0] == "wrap_value" and x[2] and x[2][0] > 0 and Lb[x[2][0] - 1][:1] == ["cell_type_id"]]
     for kind, text, where in always + mf[:(60 if quick else 700)]:
         st_cases.append(("STM", kind, text.encode(), where))
+    # well-formed files that describe NO cell (every count is zero and consistent), with and without points: the start-up either
+    # refuses them with an exception or completes with an empty population
+    st_cases.append(("STM", "zero_cells_no_points", render_lines(mesh_file_lines([], [])).encode(), None))
+    Lz = []
+    skip_recs = False
+    for row in mesh_file_lines(cellsB, [1, 0]):
+        if row[:1] == ["CELLS"]:
+            Lz.append(["CELLS", "0", "0"]); skip_recs = True; continue
+        if row[:1] == ["CELL_TYPES"]:
+            Lz.append(["CELL_TYPES", "0"]); skip_recs = True; continue
+        if row[:1] == ["CELL_DATA"]:
+            Lz.append(["CELL_DATA", "0"]); skip_recs = False; continue
+        if row[:1] == ["cell_type_id"]:
+            Lz.append(["cell_type_id", "1", "0", "int"]); Lz.append([]); break
+        if skip_recs and row:
+            continue
+        Lz.append(row)
+    st_cases.append(("STM", "zero_cells_with_points", render_lines(Lz).encode(), None))
     xf = xml_faults(rng, xml, None); rng.shuffle(xf)
     for kind, t, where in xf[:(40 if quick else 400)]:
         st_cases.append(("ST", kind, t.encode() if isinstance(t, str) else t, where))
